@@ -506,7 +506,8 @@ def run_grouped(binary, groups, timeout=1800, max_restarts=40, env=None, cpu=Non
             if lines and lines[-1] == "":
                 lines.pop()
             if not lines:
-                DEATH_TIME[binary] = DEATH_TIME.get(binary, 0.0) + t_run
+                if t_run > 20:
+                    DEATH_TIME[binary] = DEATH_TIME.get(binary, 0.0) + t_run
                 hdr_ans = hdr_ans or ("DIED rc=%d %s" % (rc, err[-200:].replace("\n", " ")))
                 answers += ["DIED"] * (len(ops) - start)
                 break
@@ -517,8 +518,9 @@ def run_grouped(binary, groups, timeout=1800, max_restarts=40, env=None, cpu=Non
             if len(got) >= need and rc == 0:
                 answers += got[:need]
                 break
-            # died early
-            DEATH_TIME[binary] = DEATH_TIME.get(binary, 0.0) + t_run
+            # died early (only slow deaths count: hangs, exhausted memory; a crash after a fraction of a second costs nothing)
+            if t_run > 20:
+                DEATH_TIME[binary] = DEATH_TIME.get(binary, 0.0) + t_run
             if got and got[-1].startswith("CRASH"):
                 answers += got
             else:
